@@ -184,7 +184,7 @@ def run_entry(entry, n, seed, acc, tier):
         avoid = '~*:^' + ''.join(dl)
         res = genfaulty.build(entry, ch, acc, max_faults=5, avoid=avoid, flavor='markup' if mode != 'plain' else 'plain', envelope=.2,
                               hostile_values=[m for m in MARKERS if not any(c in m for c in dl)] if mode == 'markup-values' else None,
-                              shapes=[(1, 1, 1), (1, 1, 2), (1, 2, 1), (2, 1, 1)])
+                              shapes=[(1, 1, 1), (1, 1, 2), (1, 2, 1), (2, 1, 1)], keep_empty_tail=.3)
         if res is None:
             return {'skip': 'genfail'}
         doc, exps = res
